@@ -14,7 +14,224 @@ import (
 // exact. Soundness for the integers: "hyps ∧ g <= -1 has no rational solution"
 // implies it has no integer solution, hence hyps ⇒ g >= 0 over the integers.
 
+var lpCalls, lpBig int
+
+// lpFeasible: fast path in 64-bit fractions with overflow detection, falling
+// back to the big.Rat solver when a number gets large. Duplicate and
+// constant-true constraints are dropped first.
 func lpFeasible(cons []linForm, nonNeg map[string]bool) bool {
+	lpCalls++
+	seen := map[string]bool{}
+	var cs []linForm
+	for _, f := range cons {
+		nz := false
+		for _, k := range f.coef {
+			if k != 0 {
+				nz = true
+				break
+			}
+		}
+		if !nz {
+			if f.c < 0 {
+				return false
+			}
+			continue
+		}
+		k := f.String()
+		if seen[k] {
+			continue
+		}
+		seen[k] = true
+		cs = append(cs, f)
+	}
+	if res, ok := lpFeasibleSmall(cs, nonNeg); ok {
+		return res
+	}
+	lpBig++
+	return lpFeasibleBig(cs, nonNeg)
+}
+
+type frac struct{ n, d int64 } // d > 0
+
+type fracOverflow struct{}
+
+func gcd64(a, b int64) int64 {
+	if a < 0 {
+		a = -a
+	}
+	if b < 0 {
+		b = -b
+	}
+	for b != 0 {
+		a, b = b, a%b
+	}
+	if a == 0 {
+		return 1
+	}
+	return a
+}
+
+const fracLimit = int64(1) << 30
+
+func mkFrac(n, d int64) frac {
+	if d < 0 {
+		n, d = -n, -d
+	}
+	g := gcd64(n, d)
+	n, d = n/g, d/g
+	if n > fracLimit || n < -fracLimit || d > fracLimit {
+		panic(fracOverflow{})
+	}
+	return frac{n, d}
+}
+
+func (a frac) mul(b frac) frac { return mkFrac(a.n*b.n, a.d*b.d) }
+func (a frac) sub(b frac) frac { return mkFrac(a.n*b.d-b.n*a.d, a.d*b.d) }
+func (a frac) quo(b frac) frac { return mkFrac(a.n*b.d, a.d*b.n) }
+func (a frac) sign() int {
+	switch {
+	case a.n > 0:
+		return 1
+	case a.n < 0:
+		return -1
+	}
+	return 0
+}
+func (a frac) cmp(b frac) int { return a.sub(b).sign() }
+
+// lpFeasibleSmall: the same algorithm as lpFeasibleBig on int64 fractions;
+// ok=false when a number left the safe range.
+func lpFeasibleSmall(cons []linForm, nonNeg map[string]bool) (res bool, ok bool) {
+	defer func() {
+		if r := recover(); r != nil {
+			if _, isOv := r.(fracOverflow); isOv {
+				res, ok = false, false
+				return
+			}
+			panic(r)
+		}
+	}()
+	symSet := map[string]bool{}
+	for _, f := range cons {
+		for s, k := range f.coef {
+			if k != 0 {
+				symSet[s] = true
+			}
+		}
+	}
+	syms := make([]string, 0, len(symSet))
+	for s := range symSet {
+		syms = append(syms, s)
+	}
+	sort.Strings(syms)
+	col := map[string]int{}
+	ncol := 0
+	for _, s := range syms {
+		col[s] = ncol
+		ncol++
+		if !nonNeg[s] && !isLenSym(s) {
+			ncol++
+		}
+	}
+	m := len(cons)
+	total := ncol + 2*m
+	zero := frac{0, 1}
+	rows := make([][]frac, m)
+	basis := make([]int, m)
+	for i, f := range cons {
+		r := make([]frac, total+1)
+		for j := range r {
+			r[j] = zero
+		}
+		for s, k := range f.coef {
+			if k == 0 {
+				continue
+			}
+			j := col[s]
+			r[j] = mkFrac(k, 1)
+			if !nonNeg[s] && !isLenSym(s) {
+				r[j+1] = mkFrac(-k, 1)
+			}
+		}
+		r[ncol+i] = mkFrac(-1, 1)
+		r[total] = mkFrac(-f.c, 1)
+		if r[total].sign() < 0 {
+			for j := range r {
+				r[j] = frac{-r[j].n, r[j].d}
+			}
+		}
+		r[ncol+m+i] = mkFrac(1, 1)
+		basis[i] = ncol + m + i
+		rows[i] = r
+	}
+	obj := make([]frac, total+1)
+	for j := range obj {
+		obj[j] = zero
+	}
+	for i := 0; i < m; i++ {
+		for j := 0; j <= total; j++ {
+			if j >= ncol+m && j < total {
+				continue
+			}
+			obj[j] = obj[j].sub(rows[i][j])
+		}
+	}
+	for iter := 0; iter < 5000; iter++ {
+		enter := -1
+		for j := 0; j < total; j++ {
+			if obj[j].sign() < 0 {
+				enter = j
+				break
+			}
+		}
+		if enter < 0 {
+			break
+		}
+		leave := -1
+		var best frac
+		for i := 0; i < m; i++ {
+			if rows[i][enter].sign() <= 0 {
+				continue
+			}
+			ratio := rows[i][total].quo(rows[i][enter])
+			if leave < 0 || ratio.cmp(best) < 0 || (ratio.cmp(best) == 0 && basis[i] < basis[leave]) {
+				leave, best = i, ratio
+			}
+		}
+		if leave < 0 {
+			return true, true
+		}
+		piv := rows[leave][enter]
+		for j := 0; j <= total; j++ {
+			if rows[leave][j].n != 0 {
+				rows[leave][j] = rows[leave][j].quo(piv)
+			}
+		}
+		for i := 0; i < m; i++ {
+			if i == leave || rows[i][enter].n == 0 {
+				continue
+			}
+			f := rows[i][enter]
+			for j := 0; j <= total; j++ {
+				if rows[leave][j].n != 0 {
+					rows[i][j] = rows[i][j].sub(f.mul(rows[leave][j]))
+				}
+			}
+		}
+		if obj[enter].n != 0 {
+			f := obj[enter]
+			for j := 0; j <= total; j++ {
+				if rows[leave][j].n != 0 {
+					obj[j] = obj[j].sub(f.mul(rows[leave][j]))
+				}
+			}
+		}
+		basis[leave] = enter
+	}
+	return obj[total].sign() == 0, true
+}
+
+func lpFeasibleBig(cons []linForm, nonNeg map[string]bool) bool {
 	// variables: x = xp - xn for free symbols, x = xp for non-negative ones
 	symSet := map[string]bool{}
 	for _, f := range cons {
